@@ -48,9 +48,20 @@ pub struct SimSourceExec {
     filters: Vec<Arc<dyn PhysicalExpr>>,
     /// string column as Utf8View
     view: bool,
+    /// behaves like DataFusion's own streaming sources (StreamingTableExec): declares itself
+    /// cooperative and wraps its streams in `cooperative()`
+    cooperative: bool,
 }
 
 impl SimSourceExec {
+    pub fn with_cooperative(mut self, yes: bool) -> Self {
+        if yes {
+            self.cooperative = true;
+            let p = (*self.props).clone().with_scheduling_type(datafusion_physical_plan::execution_plan::SchedulingType::Cooperative);
+            self.props = Arc::new(p);
+        }
+        self
+    }
     pub fn new(name: &str, scripts: Vec<Vec<Step>>) -> Self {
         Self::with_ordering(name, scripts, None, false)
     }
@@ -94,7 +105,7 @@ impl SimSourceExec {
             EmissionType::Incremental,
             if unbounded { Boundedness::Unbounded { requires_infinite_memory: false } } else { Boundedness::Bounded },
         );
-        SimSourceExec { name: name.to_string(), schema, scripts, props: Arc::new(props), stats, projection, accept_filters: false, filters: vec![], view }
+        SimSourceExec { name: name.to_string(), schema, scripts, props: Arc::new(props), stats, projection, accept_filters: false, filters: vec![], view, cooperative: false }
     }
     pub fn with_accept_filters(mut self, yes: bool) -> Self {
         self.accept_filters = yes;
@@ -158,7 +169,7 @@ impl ExecutionPlan for SimSourceExec {
     fn execute(&self, partition: usize, _context: Arc<TaskContext>) -> Result<SendableRecordBatchStream> {
         self.stats.live_streams.fetch_add(1, Ordering::Relaxed);
         self.stats.streams_opened.fetch_add(1, Ordering::Relaxed);
-        Ok(Box::pin(ScriptStream::new(
+        let stream: SendableRecordBatchStream = Box::pin(ScriptStream::new(
             Arc::clone(&self.schema),
             self.scripts[partition].clone(),
             partition,
@@ -166,7 +177,8 @@ impl ExecutionPlan for SimSourceExec {
             self.projection.clone(),
             self.filters.clone(),
             self.view,
-        )))
+        ));
+        Ok(if self.cooperative { datafusion_physical_plan::coop::make_cooperative(stream) } else { stream })
     }
 }
 
